@@ -53,7 +53,7 @@ ASSUMPTIONS = [
 ]
 REAL = ["Arguments.from_call", "Call / LazyCall / compute_args_id", "BaseClientDataStore (size routing, content key, LRU)", "Mem/SQLite client data stores", "state backends (invocation DTOs, results)", "three serializers", "DistributedInvocation.run"]
 STUBBED = ["clock", "uuid4", "history writer threads run inline"]
-PROBES = ["externalised", "inline", "lru_hit", "store_read_after_eviction", "mutated_after_submit", "spellings_compared", "identity_pairs", "reserved_prefix_string"]
+PROBES = ["externalised", "inline", "lru_hit", "store_read_after_eviction", "mutated_after_submit", "spellings_compared", "identity_pairs", "near_collision_pairs", "reserved_prefix_string"]
 
 SERIALIZERS = ["JsonSerializer", "PickleSerializer", "JsonPickleSerializer"]
 
@@ -242,6 +242,42 @@ def run(seed: int, params: dict, replay: dict | None = None) -> dict:
                 back = worker.client_data_store.resolve(k1)
                 if back != v2:
                     viol.append({"signature": f"C15/{stack}/reference-resolves-to-other-content/{serializer}", "message": f"reference resolves to {repr(back)[:200]}, created from {repr(v2)[:200]}; {desc_conf}"})
+                # near-collisions: long common prefix, different tail (a key derived from a prefix or a truncation collides)
+                n_pre = rng.choice([threshold, threshold + rng.randint(1, 9), threshold * 2, 1024 + rng.randint(0, 7), 4096 + rng.randint(0, 7)])
+                if rng.random() < 0.5:
+                    base = int("7" * n_pre)
+                    near = [base * 10 + 1, base * 10 + 2]
+                else:
+                    pre = "".join(rng.choice("xy") for _ in range(8)) * (n_pre // 8 + 1)
+                    near = [pre[:n_pre] + "A", pre[:n_pre] + "B"]
+                if dom == "json" or isinstance(near[0], str):
+                    bump("probe.near_collision_pairs")
+                    nk = [client.client_data_store.serialize(x) for x in near]
+                    for who, app_ in (("worker", worker), ("client", client)):
+                        for x, k_ in zip(near, nk):
+                            back_ = app_.client_data_store.resolve(k_)
+                            if back_ != x:
+                                viol.append({"signature": f"C15/{stack}/reference-resolves-to-other-content/near-collision/{serializer}", "message": f"two values with a common prefix of {n_pre} characters and different tails were stored; the {who} resolves the reference of {repr(x)[-12:]} to {repr(back_)[-12:]}; {desc_conf}"})
+                # adversarial re-splittings: the same character stream cut differently into keys and values
+                alpha = ["a", "b", "=", ";", '"', "\\", "1", ":", ",", " "]
+
+                def piece(lo: int = 0) -> str:
+                    return "".join(rng.choice(alpha) for _ in range(rng.randint(lo, 3)))
+
+                for _ in range(6):
+                    k_, v1_, v2_, k2_ = piece(1), piece(), piece(), piece(1)
+                    sep = rng.choice(["", "=", ";", '"', '";"', '"="', '"="' + k2_, "=" + k2_ + ";"])
+                    cand = [
+                        ({k_: v1_ + v2_}, {k_ + v1_: v2_}),
+                        ({k_: v1_, k2_: v2_}, {k_: v1_ + sep + k2_ + sep + v2_}),
+                        ({k_: v1_, k2_: v2_}, {k_: v1_ + '";"' + k2_ + '"="' + v2_}),
+                        ({k_: v1_, k2_: v2_}, {k_ + "=" + v1_ + ";" + k2_: v2_}),
+                        ({k_: v1_, k2_: v2_}, {k2_: v1_, k_: v2_}),
+                    ]
+                    a_, b_ = rng.choice(cand)
+                    bump("probe.identity_pairs")
+                    if (compute_args_id(a_) == compute_args_id(b_)) != (a_ == b_):
+                        viol.append({"signature": f"C15/{stack}/identity-encoding", "message": f"compute_args_id equality {compute_args_id(a_) == compute_args_id(b_)} but dict equality {a_ == b_}: {a_!r} vs {b_!r}"})
                 d1 = {rng.choice(["a", "b", 'k"=', "x;y", "="]): rng.choice(["1", '"1"', "1;", "=", "a=b;c"]) for _ in range(rng.randint(0, 3))}
                 d2 = dict(reversed(list(d1.items()))) if rng.random() < 0.4 else {rng.choice(["a", "b", 'k"=', "x;y", "="]): rng.choice(["1", '"1"', "1;", "=", "a=b;c"]) for _ in range(rng.randint(0, 3))}
                 bump("probe.identity_pairs")
